@@ -85,6 +85,10 @@ func (iv *Value) ValueFrom(value any) {
 		iv.ItemValue = vv.ItemValue
 		return
 	}
+	if value == nil {
+		// nothing to store; a declared array/object type must not inspect a nil type
+		return
+	}
 
 	switch iv.ItemType {
 	case ItemTypeString:
